@@ -75,9 +75,16 @@ func runC08(c *core.Ctx) {
 			}
 		}
 		c.ExpectAtLeast("writes of cached consensus state", n, 4)
-		// in-place mutation of the cached pointers: onFrameDecided/sealEpoch work on copies
-		for _, name := range []string{"abft.Orderer.onFrameDecided", "abft.Orderer.sealEpoch"} {
-			f := c.Fn(name)
+		// in-place mutation of the cached pointers: every function that stores a state through a setter
+		// (today onFrameDecided, sealEpoch, applyGenesis — located by what they do, not by name) works on
+		// a copy of what the getter returned
+		nMod := 0
+		for _, f := range p.FuncsInPkg("abft") {
+			if owners[f.Name] || len(f.CallsTo("abft.Store.SetLastDecidedState", "abft.Store.SetEpochState")) == 0 {
+				continue
+			}
+			nMod++
+			name := f.Name
 			okCopy := true
 			for _, a := range assignments(f) {
 				call, isC := ast.Unparen(a.RHS).(*ast.CallExpr)
@@ -91,6 +98,7 @@ func runC08(c *core.Ctx) {
 			}
 			c.Check(okCopy, short(name)+" modifies a copy of the stored state", "alias", f.Pos(), "the state is dereferenced (*Get…()) before it is changed and then stored through the setter", "the cached state object is modified in place: the change is visible before (or without) being persisted")
 		}
+		c.ExpectAtLeast("functions that store a consensus state through its setter", nMod, 1)
 	})
 
 	c.Clause("C08.boot", func() {
@@ -112,7 +120,8 @@ func runC08(c *core.Ctx) {
 		// epoch DB is opened for the persisted epoch before the election is created
 		// (openEpochDB is called in Bootstrap itself or in a helper that always calls it and hands its error on)
 		opens := c08sitesOf(bs, "abft.Store.openEpochDB", 2)
-		okLD := len(opens) == 1 && afterSuccess(bs, opens[0].Outer(), news[0].Pt)
+		// (when openEpochDB has no error result it cannot fail: having passed it is enough)
+		okLD := len(opens) == 1 && c08after(bs, opens[0].Outer(), news[0].Pt)
 		c.Check(okLD, "epoch database is opened before the election is restored", "T2+T4", bs.Pos(), "openEpochDB succeeded before election.New", "the election can be restored before the epoch database is open")
 		okE := false
 		wherePos := bs.Pos()
